@@ -61,7 +61,8 @@ pub fn strategy() -> BoxedStrategy<C16Case> {
         .boxed()
 }
 
-const NAMES: &[&str] = &["h", "k"];
+// one name is a dotted extension of the other: registration traffic of `h.sub` is not `h`'s
+const NAMES: &[&str] = &["h", "h.sub"];
 
 fn script(name: &str, version: usize, kind: &RegKind, resume_head: bool) -> String {
     let resume = if resume_head { "resume_from: \"head\"" } else { "" };
